@@ -10,6 +10,7 @@ import (
 	"net/http"
 	"net/http/httptest"
 	"sync/atomic"
+	"syscall"
 	"testing"
 	"time"
 
@@ -126,6 +127,9 @@ func TestHTTPRequestObservesPolicyCancellation(t *testing.T) {
 		case <-harness.After(20 * time.Second):
 			bad("request-ignores-policy-cancellation", "the call had not returned 20 s after the policy cancelled the attempt (limit / hedge delay %d ms); the server keeps that request open until the client goes away", sc.LimitMs)
 			return
+		}
+		if err != nil && errors.Is(err, syscall.EADDRNOTAVAIL) {
+			t.Skip("no free local port at the moment (many connections of earlier cases are still in TIME_WAIT)")
 		}
 		if sc.Source == "timeout" {
 			if !errors.Is(err, timeout.ErrExceeded) {
